@@ -7,7 +7,7 @@ import tempfile
 import datetime as dt
 
 from harness.core import Part, ok, viol, discard
-from harness import dp, bv, projgen, pep440ref
+from harness import fuzz, dp, bv, projgen, pep440ref
 
 from bumpver import version as bv_version
 from bumpver import v1version, v1patterns, config as bv_config
@@ -329,6 +329,7 @@ def check_c(case):
 PARTS = [
     Part("A-render-read-sweep", check=check_sweep, domain=sweep_domain, exhaustive=lambda tier: tier == "thorough"),
     Part("B-bumps", check=check_b, strategy=lambda: dp.cases(build_b, size=64), n={"quick": 16000, "thorough": 400000}, max_discard=0.5),
+    fuzz.fuzz_part("B-coverage-guided", build_b, check_b, size=64, runs={"quick": 6000, "thorough": 160000}, max_discard=0.6),
     Part("D-chains", check=check_chain, domain=chain_domain, exhaustive=lambda tier: False),
     Part("C-engine-consistency", check=check_c, strategy=lambda: dp.cases(build_b, size=64), n={"quick": 3000, "thorough": 60000}, max_discard=0.5),
 ]
